@@ -354,8 +354,10 @@ def history(ctx, k, L, tmp):
 def _unfrozen(o, depth=0):
     """name of the first writeable start/end array or time index reachable from o (None when all are frozen)"""
     if isinstance(o, nap.IntervalSet):
-        return "IntervalSet.values" if o.values.flags.writeable else None
+        return "IntervalSet.values" if o.values.flags.writeable else "IntervalSet.index / columns" if (o.index.flags.writeable or o.columns.flags.writeable) else None
     if isinstance(o, nap.TsGroup):
+        if o.index.flags.writeable:
+            return "TsGroup.index"
         for k in o.keys():
             b = _unfrozen(o[k], depth + 1)
             if b:
@@ -448,7 +450,11 @@ def rejections(ctx):
           ("Tsd.index.values[0]=", tsd, ex("x.index.values[0] = 9.0", x=tsd)), ("TsdFrame.t[-1]=", fr, ex("x.t[-1] = 0.0", x=fr)),
           ("np.asarray(Tsd.index)[0]=", tsd, ex("np.asarray(x.index)[0] = 9.0", x=tsd)),
           ("Tsd.time_support.values[0,0]=", tsd, ex("x.time_support.values[0, 0] = 2.0", x=tsd)),
-          ("TsGroup.time_support.start[0]=", g, ex("x.time_support.start[0] = 2.0", x=g))]
+          ("TsGroup.time_support.start[0]=", g, ex("x.time_support.start[0] = 2.0", x=g)),
+          # key / row-label / column-name arrays
+          ("TsGroup.index[0]=", g, ex("x.index[0] = 99", x=g)), ("TsGroup.metadata_index[0]=", g, ex("x.metadata_index[0] = 99", x=g)),
+          ("IntervalSet.index[0]=", ep, ex("ep.index[0] = 5", ep=ep)), ("IntervalSet.columns[0]=", ep, ex("ep.columns[0] = 'zzz'", ep=ep)),
+          ("IntervalSet.metadata_index[0]=", ep, ex("ep.metadata_index[0] = 4", ep=ep))]
     for name, o, act in A:
         ctx.case(("reject", name))
         b = snap(o)
